@@ -283,7 +283,15 @@ func ParseExpFromString(exp string) (ValueExp, error) {
 		return nil, err
 	}
 
-	s := res[0].(*SelectStmt)
+	if len(res) != 1 {
+		return nil, fmt.Errorf("%w: a single expression was expected", ErrParsingError)
+	}
+
+	s, ok := res[0].(*SelectStmt)
+	if !ok {
+		return nil, fmt.Errorf("%w: a single expression was expected", ErrParsingError)
+	}
+
 	return s.where, nil
 }
 
